@@ -225,7 +225,7 @@ func prefixAll(pre string, in []string) []string {
 
 func dumpShapes(p *Program) {
 	for _, k := range []string{"(*pogreb.index).bucketIndex", "(*pogreb.bucket).del", "(*pogreb.slotWriter).insert", "(*pogreb.index).createOverflowBucket",
-		"(*pogreb.datalog).readKeyValue", "(*pogreb.datalog).readKey", "(pogreb.slot).kvSize", "pogreb.encodedRecordSize", "(*pogreb.file).extend", "(*pogreb.slotWriter).write", "(*pogreb.bucketIterator).next", "(*pogreb.index).newBucketIterator", "(*pogreb.datalog).trackDel", "pogreb.cloneBytes"} {
+		"(*pogreb.datalog).readKeyValue", "(*pogreb.datalog).readKey", "(pogreb.slot).kvSize", "pogreb.encodedRecordSize", "(*pogreb.file).extend", "(*pogreb.slotWriter).write", "(*pogreb.bucketIterator).next", "(*pogreb.index).newBucketIterator", "(*pogreb.datalog).trackDel", "pogreb.cloneBytes", "internal/hash.Sum32WithSeed", "(*pogreb.DB).hash"} {
 		f := p.Fn(k)
 		if f == nil {
 			fmt.Println("missing", k)
